@@ -560,3 +560,19 @@ def macho_loadable(m):
 
 def records_facts(recs):
     return [("bytes", a, b) for a, b in recs]
+
+
+def readelf_loads(path):
+    """[(offset, vaddr, filesz, memsz)] of the PT_LOAD entries as printed by `readelf -lW` (binutils), or None."""
+    import subprocess, re
+    try:
+        out = subprocess.run(["readelf", "-lW", path], stdout=subprocess.PIPE, stderr=subprocess.DEVNULL, text=True, timeout=30).stdout
+    except Exception:
+        return None
+    res = []
+    for line in out.split("\n"):
+        m = re.match(r"\s+LOAD\s+0x([0-9a-f]+)\s+0x([0-9a-f]+)\s+0x([0-9a-f]+)\s+0x([0-9a-f]+)\s+0x([0-9a-f]+)", line)
+        if m:
+            off, va, pa, fs, ms = (int(x, 16) for x in m.groups())
+            res.append((off, va, fs, ms))
+    return res
